@@ -1038,19 +1038,8 @@ fn hex_to_decimal(ch: char) -> u64 {
 /// from additional whitespaces at both sides. The final string is also trimmed.
 /// After trimming, spaces around additional characters (`.`,`/`,`-`,`'`,`+`,`*`) are removed.
 fn flatten_name_parts(parts: &[String]) -> String {
-  parts
-    .iter()
-    .map(|s| s.trim().to_string())
-    .collect::<Vec<String>>()
-    .join(" ")
-    .trim()
-    .to_string()
-    .replace(" . ", ".")
-    .replace(" / ", "/")
-    .replace(" - ", "-")
-    .replace(" ' ", "'")
-    .replace(" + ", "+")
-    .replace(" * ", "*")
+  // the keys of a scope are the texts of names, so the candidate is written the way a name is written
+  Name::from(parts.to_vec()).to_string()
 }
 
 /// Definitions of errors raised by the lexer.
